@@ -118,6 +118,14 @@ func c13Gen(r *Rng, id int) c13Hist {
 			h.Ops = append(h.Ops, c13Op{Op: "gas", U: u, Denom: []string{USDC, USDC, USDC, ATOM, ELYS}[r.Intn(5)], Amt: amt()})
 		case x < 54:
 			h.Ops = append(h.Ops, c13Op{Op: "donate", U: u, Pool: r.Intn(2), Denom: []string{USDC, ATOM, ELYS, c13Inc}[r.Intn(4)], Amt: amt()})
+		case x < 56:
+			// the stable-stake redemption rate leaves 1 only once a borrower's interest is booked: a keeper-level loan from the vault
+			// (what a leveragelp open does), and later the accrual of its interest after long block gaps
+			if r.Chance(50) {
+				h.Ops = append(h.Ops, c13Op{Op: "vault_borrow", Sel: r.Intn(3)})
+			} else {
+				h.Ops = append(h.Ops, c13Op{Op: "block", Dt: r.Pick(86400, 30*86400, 365*86400)}, c13Op{Op: "vault_accrue"})
+			}
 		case x < 59:
 			h.Ops = append(h.Ops, c13Op{Op: "perp_open", U: u, Amt: r.Decade(6, 10).String(), Lev: []string{"2", "3", "5"}[r.Intn(3)], Sel: r.Intn(2)})
 		case x < 62:
@@ -744,6 +752,24 @@ func c13Exec(t *testing.T, col *Collector, h c13Hist) string {
 			})
 			col.Op("donate", r.Kind(), c13Big(op.Amt))
 			fmt.Fprintf(&x.fp, "don:%s;", r.Kind())
+			quiet()
+		case "vault_borrow", "vault_accrue":
+			K := w.App.StablestakeKeeper
+			borrower := Addr(700)
+			var r TxResult
+			if op.Op == "vault_borrow" {
+				cash := w.Bal(authtypes.NewModuleAddress(sstypes.ModuleName), USDC)
+				amt := cash.QuoRaw([]int64{10, 4, 2}[op.Sel%3])
+				if !amt.IsPositive() {
+					col.Op(op.Op, "skip", nil)
+					continue
+				}
+				r = x.keeperTx(func(ctx sdk.Context) error { return K.Borrow(ctx, borrower, sdk.NewCoin(USDC, amt)) })
+			} else {
+				r = x.keeperTx(func(ctx sdk.Context) error { K.UpdateInterestAndGetDebt(ctx, borrower); return nil })
+			}
+			col.Op(op.Op, r.Kind(), nil)
+			fmt.Fprintf(&x.fp, "vb:%s;", r.Kind())
 			quiet()
 		case "perp_open":
 			pos, tp := perptypes.Position_LONG, "25"
